@@ -6,6 +6,7 @@ the property's monitor (monotone remaining, conservation, load <= capacity, equa
 import json
 import os
 import sys
+from fractions import Fraction
 
 from vlib.core import SplitMix
 
@@ -35,7 +36,9 @@ def make_cases(rng, n):
     cases = []
     for i in range(n):
         r = rng.fork(i)
-        sc = G.gen_scenario(r)
+        # eqdyn (speed changes by pstate / profile under a uniform population of execs) is drawn here, not in the shared
+        # generator's default mix (C19 shares it)
+        sc = G.gen_scenario(r, klass="eqdyn") if r.chance(1, 4) else G.gen_scenario(r)
         cfg, sample = r.choice(CFGS)
         cases.append({"line": G.scenario_line(sc, cfg, sample), "query": query_of(sc), "klass": sc["klass"],
                       "feats": sorted(sc["feats"]), "cfg": cfg, "index": i})
@@ -127,14 +130,25 @@ def run(ctx):
         if "CRASH" in ans or "ERR" in ans:
             c["crash"] = True
             toks = ["SKIP"]
-        dlines.append(c["query"] + " => " + " ".join(toks))
+        # what the platform DESCRIPTION says about capacities and uniform hosts (never read from the kernel), expanded up
+        # to the date at which the run ended
+        plat = []
+        if toks != ["SKIP"] and len(toks) >= 2 and toks[-2] == "END":
+            plat = G.platform_tokens(c["line"], Fraction(toks[-1]))
+            c["plat"] = [t for t in plat if t in ("CAP", "EQH")]
+        dlines.append(" ".join([c["query"]] + plat) + " => " + " ".join(toks))
     rc, verdicts, err = ctx.run_lines([drv], dlines, timeout=3000)
     if rc != 0 or not verdicts or verdicts[-1] != "END %d" % len(dlines):
         ctx.broken.append({"kind": "driver-run", "rc": rc, "stderr": err[-2000:], "last": verdicts[-1:] if verdicts else None})
         return
     kinds, feats, cfgs = {}, {}, {}
     seen = set()
+    ctx.cov["platform_lane"] = {"cases_with_uniform_host": 0, "capacity_timelines": 0}
     for c, v in zip(cases, verdicts):
+        ctx.cov["platform_lane"]["cases_with_uniform_host"] += 1 if "EQH" in c.get("plat", []) else 0
+        ctx.cov["platform_lane"]["capacity_timelines"] += c.get("plat", []).count("CAP")
+        if " => " in v and len(v) > 600:      # the driver echoes the query (long timelines): keep its head and the reason
+            v = v.split(" => ", 1)[0][:300] + " ... => " + v.split(" => ", 1)[1]
         ctx.cov["evaluations"] += 1
         kinds[c["klass"]] = kinds.get(c["klass"], 0) + 1
         cfgs[c["cfg"] or "default"] = cfgs.get(c["cfg"] or "default", 0) + 1
